@@ -170,9 +170,12 @@ func allocBound(n int) (uint64, uint64) {
 
 // C01 ---------------------------------------------------------------------------------------------
 
-// c01Meter meters allocation. Large or length-bearing inputs are metered individually; small inputs are
-// metered in blocks of 16 (one counter read per block) against the sum of their individual bounds, and a
-// block that exceeds it is re-run case by case.
+// c01Meter meters allocation. Inputs of 1 KiB and more are metered individually; shorter inputs are metered in
+// blocks of 16 (one counter read per block). The byte filter is sound: a block passes only if its *total* allocation
+// is within the smallest individual bound of its cases (then every case is within its own bound); the object filter
+// compares the block total with the sum of the individual object bounds (a heuristic: one case with many small
+// objects can hide behind frugal neighbours as long as its bytes stay within the byte bound). A block that trips
+// either filter is re-run case by case against the individual bounds.
 type c01Meter struct {
 	pend   []c01Pending
 	b0, o0 uint64
@@ -189,18 +192,20 @@ type c01Pending struct {
 var c01M c01Meter
 
 func c01Exec(c *core.Ctx, m *bind.Msg, entry string, data []byte) {
-	small := len(data) < 64
+	small := len(data) < 1024
 	if small {
 		mm := &c01M
 		if len(mm.pend) == 0 {
 			mm.b0, mm.o0 = allocNow()
-			mm.bound, mm.obound = 0, 0
+			mm.bound, mm.obound = ^uint64(0), 0
 		}
 		c01Run(c, m, entry, data, false)
 		mm.pend = append(mm.pend, c01Pending{m, entry, data})
-		// block filter: the sum of 32n + 16 KiB (without the maximum-size-element allowance); a block above it is
-		// re-run case by case against the full per-case bound
-		mm.bound += uint64(32*len(data) + 16*1024)
+		// block filter: the block total must stay within the smallest individual byte bound of the block; a block
+		// above it is re-run case by case against the individual bounds
+		if bb, _ := allocBound(len(data)); bb < mm.bound {
+			mm.bound = bb
+		}
 		mm.obound += uint64(4*len(data) + 64)
 		if len(mm.pend) >= 16 {
 			c01Flush(c)
@@ -220,7 +225,7 @@ func c01Flush(c *core.Ctx) {
 	pend := mm.pend
 	mm.pend = mm.pend[:0]
 	// the block total includes the harness's own bookkeeping (appending to pend)
-	if b1-mm.b0 > mm.bound+4096 || o1-mm.o0 > mm.obound+64 {
+	if b1-mm.b0 > mm.bound || o1-mm.o0 > mm.obound+64 {
 		for _, p := range pend {
 			c01Run(c, p.m, p.entry, p.data, true)
 		}
